@@ -35,13 +35,29 @@ func condsAt(b *ssa.BasicBlock) []Cond {
 			continue
 		}
 		switch {
-		case len(s0.Preds) == 1 && s0.Dominates(b):
+		case soleForwardPred(s0, d) && s0.Dominates(b):
 			out = append(out, normCond(Cond{ifi.Cond, true, d}))
-		case len(s1.Preds) == 1 && s1.Dominates(b):
+		case soleForwardPred(s1, d) && s1.Dominates(b):
 			out = append(out, normCond(Cond{ifi.Cond, false, d}))
 		}
 	}
 	return out
+}
+
+// soleForwardPred: every predecessor of s other than d is dominated by s (a back edge into s),
+// so every first entry into s comes through the edge d->s.
+func soleForwardPred(s, d *ssa.BasicBlock) bool {
+	n := 0
+	for _, p := range s.Preds {
+		if p == d {
+			n++
+			continue
+		}
+		if !s.Dominates(p) {
+			return false
+		}
+	}
+	return n == 1
 }
 
 func normCond(c Cond) Cond {
